@@ -288,6 +288,9 @@ def checkGroups (groups : Option Groups) (n_features_in : Nat) : Except String (
   | some groups =>                                                -- if groups is not None:
     -- all_indices = [];  for g in groups: all_indices.extend(list(g))
     let all_indices : List Int := groups.foldl (fun acc g => acc ++ g) []
+    -- if not all(isinstance(i, Integral) and not isinstance(i, bool) for i in all_indices): raise ValueError
+    --   (a type guard on the elements: it never fires on a list of integers, the only inputs of this model; wrongly
+    --    typed contents are exercised on the real code by the harness)
     -- if len(all_indices) > 0 and (min(all_indices) < 0 or max(all_indices) >= n_features_in): raise ValueError
     pyIf (pyAnd (pyCmp .gt (pure (pyLen all_indices)) (pure (0 : Int))) fun _ =>
             (pyOr (pyCmp .lt (pyMin all_indices) (pure (0 : Int))) fun _ =>
